@@ -15,6 +15,20 @@ TABLE = {
  "C12_m2": dict(breaks="C12", needs="an abandoned prefix-mode parse followed by a prefix parse of the same word", caught_by=["C12"], strengthened="added prefix_first / prefix_abandon1 / api_prefix_first requests AND the residual state of the shared incremental parser to the canonical state; with the requests alone it was still missed because the state was merged with its predecessor"),
  "C13_m1": dict(breaks="C13", needs="input type differs from the literal's type (text literal read from bytes) and a cut strictly inside that literal", caught_by=["C13"], strengthened="added multi-character text literals in bytes-input grammars to the C13 family; before that missed"),
  "C13_m2": dict(breaks="C13", needs="a regex cut where the text so far is only a partial match although a shorter prefix was a complete one ((ab)+ after an odd number of characters)", caught_by=["C13"], strengthened="added regexes with non-prefix-closed partial matches; before that missed"),
+ "C02_m1": dict(breaks="C02", needs=">= 2 constraints of one class, one of which raises out of Constraint.fitness() itself (e.g. str(<d>) < 5 raises when the values are compared), the others satisfied", caught_by=["C02"], strengthened="C02 direct part now evaluates PAIRS of constraints (quantifier over a rare symbol x comparison over a frequent one, and comparisons that raise at comparison time); before that missed"),
+ "C02_m2": dict(breaks="C02", needs="a satisfied any()/exists constraint (score > 1) next to a violated constraint with enough partial credit", caught_by=["C02"], strengthened="same constraint pairs; before that missed"),
+ "C05_m1": dict(breaks="C05", needs="the same nullable nonterminal twice in direct succession, both empty", caught_by=["C05"], strengthened=None),
+ "C05_m2": dict(breaks="C05", needs="an rb'...' regex that can produce a byte >= 0x80", caught_by=["C05", "C01"], strengthened="added a high-byte bytes regex to the binary atoms AND tightened the signature of known finding C05-generated-word-needs-nonpreferred-regex-split (it now requires the generated word to be in the reference language); before that the violation was produced but swallowed by the too-loose finding"),
+ "C09_m1": dict(breaks="C09", needs="an uninterrupted run of >= 16 bit leaves whose first 8 bits are 0", caught_by=["C09"], strengthened="added an 8-zero-bits atom; before that missed"),
+ "C09_m2": dict(breaks="C09", needs="text-only prefix, then a subtree with a bytes leaf that ends in bit leaves", caught_by=["C09"], strengthened=None),
+ "C11_m1": dict(breaks="C11", needs="a cached comparison result reaching something that reads .success (check(), a quantifier over structurally equal elements)", caught_by=["C11", "C07"], strengthened="C11's observation now includes check() of every long-lived constraint object and the reference spec has ALL memoisation switched off (fd.disable_constraint_caches); before that only C07 caught it"),
+ "C11_m2": dict(breaks="C11", needs="any() nested in a quantifier bound to a Python variable, inner verdicts that differ between outer elements", caught_by=["C11", "C07"], strengthened="added such a constraint to C11's quantifier spec and atoms whose verdict depends on the outer variable to C07; memo-free reference as above"),
+ "C16_m1": dict(breaks="C16", needs="a generator with >= 2 symbol arguments and an operator that edits a non-last one", caught_by=["C16"], strengthened="added spec generators2 (cat(<w>, <z>) with constraints on the arguments); before that missed"),
+ "C16_m2": dict(breaks="C16", needs="a no-argument generator, the equality repair that unlocks its children, then an operator that picks a node inside the field", caught_by=["C16"], strengthened="added spec generators_eq and attribution of foreign text to the operator application that introduces it"),
+ "C19_m1": dict(breaks="C19", needs="one message type at two grammar positions with swapped direction, reachable by the same type sequence", caught_by=["C19"], strengthened="added a message type travelling in both directions to the family; before that missed"),
+ "C19_m2": dict(breaks="C19", needs="two directly adjacent elements of a concatenation that are both invisible to the fuzzer (messages between two external parties)", caught_by=["C19"], strengthened="added messages between two external parties (slicing) with an erasing projection as reference; before that missed"),
+ "C20_m1": dict(breaks="C20", needs=">= 2 remote messages, the first satisfying and a later one violating a constraint", caught_by=["C20"], strengthened="added a constraint on the second remote message and the peer behaviour second_reply_violates_constraint; before that missed"),
+ "C20_m2": dict(breaks="C20", needs="a remote message type that is not prefix-free, followed by data of the same party already buffered", caught_by=["C20"], strengthened="added scenario lookahead; before that missed"),
 }
 logs = {}
 for f in glob.glob('/tmp/confirm_wave*.log'):
